@@ -42,19 +42,19 @@ type TierCfg struct {
 }
 
 type HarnessCfg struct {
-	Pkg       string   `json:"pkg"`  // relative to /repo, e.g. "./idr"
-	Name      string   `json:"name"` // Go function name
-	Covers    []string `json:"covers"`
-	Quick     TierCfg  `json:"quick"`
-	Thorough  TierCfg  `json:"thorough"`
-	Replay    string   `json:"replay"` // "native" (default) | "none"
-	Redirect  map[string]string `json:"redirect"`
-	Pure      []string `json:"pure"`
-	Bounds    string   `json:"bounds"`
-	Models    []string `json:"models"`
-	AllowPanics bool   `json:"allow_panics"`
-	Race      bool     `json:"race"` // native replay under the Go race detector
-	Nondet    bool     `json:"nondet"` // the native run has uncontrolled nondeterminism (map order): replay by stress
+	Pkg         string            `json:"pkg"`  // relative to /repo, e.g. "./idr"
+	Name        string            `json:"name"` // Go function name
+	Covers      []string          `json:"covers"`
+	Quick       TierCfg           `json:"quick"`
+	Thorough    TierCfg           `json:"thorough"`
+	Replay      string            `json:"replay"` // "native" (default) | "none"
+	Redirect    map[string]string `json:"redirect"`
+	Pure        []string          `json:"pure"`
+	Bounds      string            `json:"bounds"`
+	Models      []string          `json:"models"`
+	AllowPanics bool              `json:"allow_panics"`
+	Race        bool              `json:"race"`   // native replay under the Go race detector
+	Nondet      bool              `json:"nondet"` // the native run has uncontrolled nondeterminism (map order): replay by stress
 }
 
 type PropCfg struct {
@@ -65,13 +65,13 @@ type PropCfg struct {
 }
 
 type KnownFinding struct {
-	ID        string `json:"id"`
-	Property  string `json:"property"`
-	Status    string `json:"status"` // known | fixed
-	Harness   string `json:"harness"`
-	WhatFails string `json:"what_fails"`
-	Witness   string `json:"witness,omitempty"`
-	Commit    string `json:"commit,omitempty"`
+	ID        string   `json:"id"`
+	Property  string   `json:"property"`
+	Status    string   `json:"status"` // known | fixed
+	Harness   string   `json:"harness"`
+	WhatFails string   `json:"what_fails"`
+	Witness   string   `json:"witness,omitempty"`
+	Commit    string   `json:"commit,omitempty"`
 	Also      []string `json:"also_properties,omitempty"` // other properties whose checks run the same harness
 }
 
@@ -197,30 +197,30 @@ func nativeReplay(hroot, pkg, pkgName string, harnessNames []string, items []rep
 }
 
 type harnessEvidence struct {
-	Harness       string                 `json:"harness"`
-	Pkg           string                 `json:"pkg"`
-	Bounds        string                 `json:"bounds"`
-	Params        map[string]int64       `json:"params"`
-	Unwind        int                    `json:"unwind"`
-	Paths         int                    `json:"paths"`
-	Completed     int                    `json:"completed"`
-	Pruned        int                    `json:"pruned"`
-	Decisions     int64                  `json:"decisions"`
-	Steps         int64                  `json:"ssa_instructions_executed"`
-	Asserts       map[string]*AssertStat `json:"asserts"`
-	Covers        map[string]int         `json:"cover_labels"`
-	Queries       int                    `json:"queries"`
-	QSat          int                    `json:"q_sat"`
-	QUnsat        int                    `json:"q_unsat"`
-	QUnknown      int                    `json:"q_unknown"`
-	SolverTimeS   float64                `json:"solver_time_s"`
-	WallS         float64                `json:"wall_s"`
-	Validated     int                    `json:"witnesses_validated_natively"`
-	Functions     []string               `json:"functions_encoded"`
-	Models        []string               `json:"models_used,omitempty"`
-	Notes         []string               `json:"notes,omitempty"`
-	KnownProbes   map[string]string      `json:"known_finding_probes,omitempty"`
-	CrossCheck    string                 `json:"cross_check,omitempty"`
+	Harness     string                 `json:"harness"`
+	Pkg         string                 `json:"pkg"`
+	Bounds      string                 `json:"bounds"`
+	Params      map[string]int64       `json:"params"`
+	Unwind      int                    `json:"unwind"`
+	Paths       int                    `json:"paths"`
+	Completed   int                    `json:"completed"`
+	Pruned      int                    `json:"pruned"`
+	Decisions   int64                  `json:"decisions"`
+	Steps       int64                  `json:"ssa_instructions_executed"`
+	Asserts     map[string]*AssertStat `json:"asserts"`
+	Covers      map[string]int         `json:"cover_labels"`
+	Queries     int                    `json:"queries"`
+	QSat        int                    `json:"q_sat"`
+	QUnsat      int                    `json:"q_unsat"`
+	QUnknown    int                    `json:"q_unknown"`
+	SolverTimeS float64                `json:"solver_time_s"`
+	WallS       float64                `json:"wall_s"`
+	Validated   int                    `json:"witnesses_validated_natively"`
+	Functions   []string               `json:"functions_encoded"`
+	Models      []string               `json:"models_used,omitempty"`
+	Notes       []string               `json:"notes,omitempty"`
+	KnownProbes map[string]string      `json:"known_finding_probes,omitempty"`
+	CrossCheck  string                 `json:"cross_check,omitempty"`
 }
 
 func tierOf(h *HarnessCfg, tier string) *TierCfg {
@@ -429,37 +429,46 @@ func cmdCheck(args []string) int {
 		// give the same path set and the same assertion verdicts
 		if *tier == "thorough" && len(res.Inconclusive) == 0 {
 			xt, base, scope := t, res, "thorough bounds"
-			if res.Paths > 30000 {
-				// too large to repeat: cross-check at the quick bounds instead
+			const xcheckBudget = 5000 // paths: cvc5 is 3-10x slower than z3 5.1 on these queries
+			skip := false
+			if res.Paths > xcheckBudget {
+				// too large to repeat: cross-check at the quick bounds instead, if those are small enough
 				xt, scope = tierOf(h, "quick"), "quick bounds"
 				bcfg := mkConfig(xt, "quick", *workers)
 				bcfg.Redirect, bcfg.PureFns, bcfg.Known = cfg.Redirect, cfg.PureFns, cfg.Known
 				bcfg.Validate = 0
+				bcfg.MaxPaths = xcheckBudget + 1
 				base = Explore(prog, fn, bcfg)
-			}
-			xcfg := mkConfig(xt, "quick", *workers)
-			xcfg.Redirect, xcfg.PureFns, xcfg.Known = cfg.Redirect, cfg.PureFns, cfg.Known
-			xcfg.Solver = "cvc5"
-			xcfg.Validate = 0
-			xcfg.TimeoutMs = 60000
-			xcfg.DeadlineSec = 1200
-			xres := Explore(prog, fn, xcfg)
-			res := base
-			_ = scope
-			same := xres.Paths == res.Paths && xres.Completed == res.Completed && len(xres.Violations) == len(res.Violations) && len(xres.Inconclusive) == 0
-			for l, a := range res.Asserts {
-				xa := xres.Asserts[l]
-				if xa == nil || xa.Held != a.Held || xa.Violated != a.Violated {
-					same = false
+				if base.Paths > xcheckBudget || len(base.Inconclusive) > 0 {
+					skip = true
+					he.CrossCheck = fmt.Sprintf("cvc5 1.0: skipped (more than %d paths also at the quick bounds: beyond the cross-check budget)", xcheckBudget)
 				}
 			}
-			if len(xres.Inconclusive) > 0 {
-				he.CrossCheck = fmt.Sprintf("cvc5 1.0: inconclusive (%s) — not counted", strings.Join(xres.Inconclusive, "; "))
-			} else if same {
-				he.CrossCheck = fmt.Sprintf("cvc5 1.0 at the %s: identical (%d paths, %d queries, %.1fs solver time)", scope, xres.Paths, xres.Queries, xres.SolverTimeS)
-			} else {
-				he.CrossCheck = fmt.Sprintf("cvc5 1.0: DISAGREES (paths %d vs %d, violations %d vs %d)", xres.Paths, res.Paths, len(xres.Violations), len(res.Violations))
-				inconclusive = append(inconclusive, h.Name+": solver disagreement: "+he.CrossCheck)
+			if !skip {
+				xcfg := mkConfig(xt, "quick", *workers)
+				xcfg.Redirect, xcfg.PureFns, xcfg.Known = cfg.Redirect, cfg.PureFns, cfg.Known
+				xcfg.Solver = "cvc5"
+				xcfg.Validate = 0
+				xcfg.TimeoutMs = 60000
+				xcfg.DeadlineSec = 400
+				xres := Explore(prog, fn, xcfg)
+				res := base
+				_ = scope
+				same := xres.Paths == res.Paths && xres.Completed == res.Completed && len(xres.Violations) == len(res.Violations) && len(xres.Inconclusive) == 0
+				for l, a := range res.Asserts {
+					xa := xres.Asserts[l]
+					if xa == nil || xa.Held != a.Held || xa.Violated != a.Violated {
+						same = false
+					}
+				}
+				if len(xres.Inconclusive) > 0 {
+					he.CrossCheck = fmt.Sprintf("cvc5 1.0: inconclusive (%s) — not counted", strings.Join(xres.Inconclusive, "; "))
+				} else if same {
+					he.CrossCheck = fmt.Sprintf("cvc5 1.0 at the %s: identical (%d paths, %d queries, %.1fs solver time)", scope, xres.Paths, xres.Queries, xres.SolverTimeS)
+				} else {
+					he.CrossCheck = fmt.Sprintf("cvc5 1.0: DISAGREES (paths %d vs %d, violations %d vs %d)", xres.Paths, res.Paths, len(xres.Violations), len(res.Violations))
+					inconclusive = append(inconclusive, h.Name+": solver disagreement: "+he.CrossCheck)
+				}
 			}
 		}
 		pr := &pendingReplay{h: h, fn: fn, he: &he}
